@@ -12,6 +12,13 @@ CHECKS = {
                   'scalar field types are extern types with symbolic (size, align) in {1,2,4,8,16} plus a slice with the real built-in names',
              design='4/C03'),
 }
+CHECKS['C01'] = dict(text='On every accepted symbolic path of t_layout (same bounded family as C03) z3 proves that laying the '
+             'produced region list out by the repr(C) rule puts every named field exactly at its declared address (or at its '
+             'predecessor\'s end), that no named field is missing, that the compiler would insert no padding (every offset a multiple '
+             'of the region alignment, size = sum of regions and a multiple of the alignment) and that region sizes/alignments equal '
+             'the reference table.',
+             note='bounded as C03; repr(C) layout rule and scalar alignment table (windows-msvc x86/x86_64) are the trusted reference; token emission of the struct not covered',
+             design='4/C01')
 NA = {}
 ALL = [json.loads(l)['id'] for l in open('properties.jsonl')]
 for p in ALL:
